@@ -177,6 +177,16 @@ theorem global_trace_partial (eqv : ν → ν → Bool) (hrefl : ∀ x, eqv x x 
     State.empty [] (inv_empty enc q _) hsafe
   simp [holds, run, runFrom_length, this]
 
+/-- The trace specification leaves no slack: two delivery sequences accepted for the same query and
+rows (values compared by equality, bounds included) are equal — so at null-safe inputs the
+specification alone determines what must be delivered at every row. -/
+theorem spec_determines_trace [DecidableEq ν] (q : Query α φ ν) (rows : List (Row κ φ ν))
+    (outs₁ outs₂ : List (Option (Result κ ν)))
+    (h₁ : holds (fun x y => decide (x = y)) true q rows outs₁ = true)
+    (h₂ : holds (fun x y => decide (x = y)) true q rows outs₂ = true) : outs₁ = outs₂ := by
+  simp only [holds, Bool.and_eq_true, decide_eq_true_eq, Option.isNone_iff_eq_none] at h₁ h₂
+  exact checkFrom_unique q rows 0 [] outs₁ outs₂ h₁.1.symm h₂.1.symm h₁.2 h₂.2
+
 /-! ## the aggregates themselves -/
 
 /-- the running accumulators compute the list aggregates of the specification -/
